@@ -89,6 +89,41 @@ def armTaken (T : Table) : List Ty → Val → Nat
   | [_], _ => 0
   | p :: q :: ps, v => if contains T p v then 0 else armTaken T (q :: ps) v + 1
 
+/-- DEFECT (recorded finding C33-arm-test-type-error): the guard itself raises `TypeError` for a string value when the pattern is
+    the class `Nat` (`Nat.try_new` evaluates `i >= 0` before looking at the type of `i`) or an interval (`Range.__contains__`
+    evaluates `start <= item <= end`); a union evaluates all its members (`any([... for t in y.__args__])`). Literal enums (set
+    membership), `Int`, `Str`, `Obj` never raise. -/
+def crashes (T : Table) : Ty → Val → Bool
+  | .mono k, v => (match v with | .str _ => k == T.iNat | _ => false)
+  | .refine b p, v =>
+    (match v with
+     | .str _ => (b == T.iInt || b == T.iNat) && (match p with | .and _ _ => true | .ge _ => true | .le _ => true | _ => false)
+     | _ => false)
+  | .or ts, v => crashesAny T ts v
+  | _, _ => false
+where crashesAny (T : Table) : TyList → Val → Bool
+  | .nil, _ => false
+  | .cons t ts, v => crashes T t v || crashesAny T ts v
+
+/-- the same for an arm as written: an INTEGER LITERAL arm (`10 -> …`, flag `true`) additionally converts the scrutinee with
+    `int(…)` before comparing, which raises `ValueError` for a string value; the enum arm `(e: {10})` of the same type does not
+    (observed on the emitted code; string literal arms never raise) -/
+def crashesArm (T : Table) (arm : Ty × Bool) (v : Val) : Bool :=
+  crashes T arm.1 v ||
+    (arm.2 && (match arm.1, v with
+      | .refine b _, .str _ => b == T.iInt || b == T.iNat
+      | _, _ => false))
+
+/-- what the emitted code does with the defect in: `none` = the test of some arm raised before an arm was taken.
+    Arms carry the flag "written as an integer literal". -/
+def armOutcome (T : Table) : List (Ty × Bool) → Val → Option Nat
+  | [], _ => some 0
+  | [a], v => if crashesArm T a v then none else some 0
+  | a :: b :: rest, v =>
+    if crashesArm T a v then none
+    else if contains T a.1 v then some 0
+    else (armOutcome T (b :: rest) v).map (· + 1)
+
 /-- pattern types whose run-time test is exact: `Int`, `Nat`, `Str`, `Obj`, refinements of `Int`/`Nat`/`Str` whose values lie in
     the base class (well-formed literal enums and intervals), unions of these -/
 def goodPat (T : Table) : Ty → Bool
